@@ -289,6 +289,55 @@ def run(ctx):
     # parser strips in the matching order: '[' use first (from the right), then '::', then ':'
     ctx.floor("R4", 16)
 
+    # ---- R5 left-to-right scanning, bounded split, rendered text = parsed text -------------------------------------
+    from ..core import effects
+    fx = effects.engine(P).fx(init)
+    text = init.params()[1]  # the atom text parameter (first after self)
+    RIGHTMOST = {"rfind", "rindex", "rsplit", "rpartition"}
+    LEFTMOST = {"find", "index", "split", "partition"}
+    n_scan = 0
+    for c in A.calls(init.node):
+        if not (isinstance(c.func, ast.Attribute) and c.func.attr in RIGHTMOST | LEFTMOST and c.args and isinstance(A.const(c.args[0]), str)):
+            continue
+        if "param:" + text not in fx.sources(c.func.value, c):
+            continue
+        delim = A.const(c.args[0])
+        if delim in (",",):
+            continue  # the USE list is a set of tokens, order-free
+        n_scan += 1
+        ctx.check("R5", init, c.func.attr in LEFTMOST, f"scan-direction:{delim}",
+                  f"the {delim!r} delimiter is located scanning left to right",
+                  f"the {delim!r} delimiter is located with .{c.func.attr}() (rightmost occurrence): a second occurrence further right is taken as the "
+                  f"delimiter and the text before it is accepted unchecked (e.g. 'cat/pkg:::repo' parses as cat/pkg::repo)", node=c)
+        if c.func.attr == "split" and delim == "/":
+            bounded = len(c.args) >= 2 and A.const(c.args[1]) == 1 or any(k.arg == "maxsplit" and A.const(k.value) == 1 for k in c.keywords)
+            tgt = getattr(c, "_parent", None)
+            tname = tgt.targets[0].id if isinstance(tgt, ast.Assign) and isinstance(tgt.targets[0], ast.Name) else None
+            len_guard = tname is not None and any(
+                isinstance(i, ast.If) and raises_malformed(i.body) and any(isinstance(x, ast.Call) and isinstance(x.func, ast.Name) and x.func.id == "len" and x.args
+                                                                           and isinstance(x.args[0], ast.Name) and x.args[0].id == tname for x in ast.walk(i.test))
+                and any(isinstance(o, (ast.Gt, ast.GtE, ast.NotEq, ast.NotIn)) for cmp_ in ast.walk(i.test) if isinstance(cmp_, ast.Compare) for o in cmp_.ops)
+                for i in A.body_walk(init.node))
+            ctx.check("R5", init, bounded or len_guard, "slot-split-bounded",
+                      "slot/sub-slot text is cut at the first '/' only (any further '/' then fails the character check)",
+                      "the slot text is split on every '/': with two or more separators all pieces pass the per-piece check, the two-piece unpack is skipped "
+                      "and 'a/b/c' is kept as a slot name (cat/pkg:0/1/2 accepted)", node=c)
+    ctx.require(n_scan >= 4, f"atom.__init__: only {n_scan} delimiter searches on the atom text found")
+    # the text rendered by __str__ (cpvstr) is a cut of the argument, never a re-spelling obtained from the parsed CPV
+    cp_stores = [(v, st) for t, v, st in A.assignments(init.node) if A.self_attr(t, fx.selfname) == "cpvstr"]
+    for c in A.calls(init.node):
+        if (dotted(c.func) or "") in ("sf", "object.__setattr__") and len(c.args) == 3 and A.const(c.args[1]) == "cpvstr":
+            cp_stores.append((c.args[2], c))
+    ctx.require(cp_stores, "atom.__init__: no store to cpvstr")
+    for v, st in cp_stores:
+        srcs = fx.sources(v, st)
+        foreign = sorted(t for t in srcs if t.startswith("self:"))
+        ctx.check("R5", init, "param:" + text in srcs and not foreign, "cpvstr-is-input-text:" + ",".join(foreign),
+                  "cpvstr (rendered by __str__) is cut from the argument text",
+                  f"atom.cpvstr is taken from {foreign or sorted(srcs)} instead of the argument text: the parsed CPV re-spells revisions (-r0 dropped, -r01 -> -r1) "
+                  f"while =* matching uses the raw fullver, so the rendered atom re-parses to one that matches a different set", node=st)
+    ctx.floor("R5", 6)
+
 
 MUTANTS = [
     {"name": "drop-use-default-gate", "file": "src/pkgcore/ebuild/atom.py", "old": "                        if not eapi_obj.options.has_use_dep_defaults:", "new": "                        if not eapi_obj.options.has_use_deps:", "rule": "R1"},
